@@ -371,6 +371,53 @@ func (c07) Meta(env *kernel.Env) kernel.Meta {
 
 // ---- fresh-process tier -------------------------------------------------
 
+var goEnvPinned []string
+
+// perturbedEnv is the environment of fresh process number k: what the go
+// command needs is pinned (module and build caches, flags), the rest varies.
+func perturbedEnv(k, gmp int, ws, scr string) []string {
+	if goEnvPinned == nil {
+		for _, name := range []string{"GOMODCACHE", "GOCACHE"} {
+			out, err := exec.Command("go", "env", name).Output()
+			if err != nil {
+				kernel.Harnessf("go env %s: %v", name, err)
+			}
+			goEnvPinned = append(goEnvPinned, name+"="+strings.TrimSpace(string(out)))
+		}
+	}
+	drop := map[string]bool{"GOPATH": true, "GOMODCACHE": true, "GOCACHE": true, "GOMAXPROCS": true}
+	set := map[string]string{}
+	switch k % 4 {
+	case 1:
+		set["GOPATH"] = ws
+	case 2:
+		set["GOPATH"] = filepath.Join(scr, "no-such-gopath")
+		set["HOME"] = filepath.Join(scr, "home2")
+		set["TZ"] = "Asia/Tokyo"
+		set["LANG"] = "fr_FR.UTF-8"
+		os.MkdirAll(set["HOME"], 0o755)
+	case 3:
+		set["TMPDIR"] = filepath.Join(scr, "tmp2")
+		os.MkdirAll(set["TMPDIR"], 0o755)
+	}
+	for name := range set {
+		drop[name] = true
+	}
+	var env []string
+	for _, kv := range os.Environ() {
+		name, _, _ := strings.Cut(kv, "=")
+		if !drop[name] {
+			env = append(env, kv)
+		}
+	}
+	env = append(env, goEnvPinned...)
+	env = append(env, fmt.Sprintf("GOMAXPROCS=%d", gmp))
+	for name, v := range set {
+		env = append(env, name+"="+v)
+	}
+	return env
+}
+
 func (c c07) ParentPhase(env *kernel.Env) kernel.PhaseResult {
 	res := kernel.PhaseResult{Coverage: map[string]any{}}
 	scr := os.Getenv("VERIF_SCR")
@@ -408,6 +455,23 @@ func (c c07) ParentPhase(env *kernel.Env) kernel.PhaseResult {
 			}
 		}
 	}
+	// the programs are copied below <scratch>/gows/src: a process may or may not
+	// have GOPATH pointing at that workspace (or anywhere), HOME, TMPDIR, TZ,
+	// LANG and the working directory vary too - none of it is an input of the
+	// generators, every process must print the same texts
+	ws := filepath.Join(scr, "gows")
+	wsDir := map[string]string{}
+	for _, ref := range progs {
+		if ref.Kind == "repo" {
+			continue
+		}
+		dst := filepath.Join(ws, "src", "example.com", "vs", ref.Name)
+		os.MkdirAll(filepath.Dir(dst), 0o755)
+		if out, err := exec.Command("cp", "-r", progDir(env, ref), dst).CombinedOutput(); err != nil {
+			kernel.Harnessf("copy of %s into the workspace: %v %s", ref.Name, err, out)
+		}
+		wsDir[ref.Name] = dst
+	}
 	results := make([]result, len(jobs))
 	sem := make(chan struct{}, 8)
 	done := make(chan int)
@@ -418,9 +482,12 @@ func (c c07) ParentPhase(env *kernel.Env) kernel.PhaseResult {
 			dir := progDir(env, j.ref)
 			if j.ref.Kind == "repo" {
 				dir = pristine
+			} else if d, ok := wsDir[j.ref.Name]; ok {
+				dir = d
 			}
 			cmd := exec.Command(fresh, append([]string{dir}, progFiles(env, j.ref)...)...)
-			cmd.Env = append(os.Environ(), fmt.Sprintf("GOMAXPROCS=%d", j.gmp))
+			cmd.Env = perturbedEnv(j.proc, j.gmp, ws, scr)
+			cmd.Dir = []string{"", dir, "/", scr}[j.proc%4]
 			b, err := cmd.Output()
 			r := result{job: j}
 			if err != nil {
